@@ -439,6 +439,20 @@ func Branching(on bool) {
 	}
 }
 
+// NumTasks / NumEvents let a driver mark epochs inside one execution (C19).
+func NumTasks() int {
+	if s := cur; s != nil {
+		return len(s.tasks)
+	}
+	return 0
+}
+func NumEvents() int {
+	if s := cur; s != nil {
+		return len(s.Events)
+	}
+	return 0
+}
+
 // ---- virtual time ----
 
 func SleepNS(d int64) {
